@@ -84,7 +84,7 @@ func TestC15(t *testing.T) {
 
 	g := gen.HTMLInput()
 	p = c.rec.NewPart("rapid_fragments", "rapid: fragment grammar / mutated vector with the two bytes replaced by a drawn substitute", true, false, "")
-	c.Rapid(p, 8, pick(30000, 900000), func(rt *rapid.T, sh int) ev.Case {
+	c.Rapid(p, 8, pick(100000, 1000000), func(rt *rapid.T, sh int) ev.Case {
 		var s string
 		if rapid.Bool().Draw(rt, "src") {
 			s = g.Draw(rt, "s")
@@ -97,7 +97,7 @@ func TestC15(t *testing.T) {
 	})
 	p = c.rec.NewPart("rapid_bytes", "rapid: arbitrary bytes with '<' mapped to '>' and '=' to '-'", true, false, "")
 	bg := gen.Bytes(40)
-	c.Rapid(p, 4, pick(25000, 600000), func(rt *rapid.T, sh int) ev.Case {
+	c.Rapid(p, 4, pick(80000, 800000), func(rt *rapid.T, sh int) ev.Case {
 		return ev.Case{Kind: "no_lt_eq", In: c15Strip.Replace(bg.Draw(rt, "b"))}
 	})
 	c.rec.Require("near_miss", "plain")
